@@ -1,3 +1,58 @@
-(* C04 — placeholder replaced below once MgmtProofs is in place *)
-From Coq Require Import List.
-From PyCasbin Require Import Base Mgmt.
+(* C11 — a failed policy reload leaves the enforcer exactly as it was. *)
+From Coq Require Import List NArith Bool.
+From PyCasbin Require Import Base Effect Enforce Policy RoleGraph Mgmt MgmtLinks MgmtProofs.
+Import ListNotations.
+
+(* the adapter failing after delivering ANY prefix of its rows (k = 0..n and beyond) makes load_policy raise *)
+Theorem C11_adapter_failure_raises : forall k s n, exists c, snd (load_policy k s (Some n)) = verr c.
+Proof. exact adapter_failure_raises. Qed.
+Print Assumptions C11_adapter_failure_raises.
+
+(* whenever load_policy raises — adapter failure at any point, a row unusable for ordering (sort), a
+   grouping row unusable for link building — the rules are untouched and the role managers are in sync
+   with them again (Inv = C04's invariant, which is what the rollback needs and restores) *)
+Theorem C11_failed_reload_restores_state : forall k s fa s' v,
+  Inv k s -> load_policy k s fa = (s', v) -> is_err v = true -> Inv k s' /\ same_rules s s'.
+Proof. exact failed_reload. Qed.
+Print Assumptions C11_failed_reload_restores_state.
+
+(* ... therefore every decision, every role query and every stored rule is as before the call *)
+Theorem C11_failed_reload_is_invisible : forall k s fa s' v,
+  Inv k s -> load_policy k s fa = (s', v) -> is_err v = true ->
+  (forall req, snd (enforce_ex_m k s req) = snd (enforce_ex_m k s' req))
+  /\ (forall u d, fst (rmk_get_roles (m_rm s) u d) = fst (rmk_get_roles (m_rm s') u d)
+               /\ fst (rmk_get_users (m_rm s) u d) = fst (rmk_get_users (m_rm s') u d))
+  /\ m_p s' = m_p s /\ m_g s' = m_g s /\ m_g2 s' = m_g2 s.
+Proof. exact failed_reload_observations. Qed.
+Print Assumptions C11_failed_reload_is_invisible.
+
+(* ... and arbitrary further use keeps rules and links in sync, exactly as if the call had not happened *)
+Theorem C11_then_anything : forall k s fa s' v ops,
+  Inv k s -> load_policy k s fa = (s', v) -> is_err v = true -> forallb (op_ok k) ops = true ->
+  Inv k (fst (run k s' ops)).
+Proof.
+  intros k s fa s' v ops HI H He Hok. apply run_inv; [|exact Hok].
+  exact (proj1 (failed_reload k s fa s' v HI H He)).
+Qed.
+Print Assumptions C11_then_anything.
+
+(* a successful reload replaces policy and role links together *)
+Theorem C11_successful_reload_replaces_both : forall k s s',
+  Inv k s -> load_policy k s None = (s', ok (VL [])) ->
+  exists p g g2, deliver k (m_db s) None [] [] [] = Ok (p, g, g2)
+    /\ m_g s' = g /\ m_g2 s' = g2
+    /\ (if k_prio k then sort_by_priority 0 p = Ok (m_p s') else m_p s' = p)
+    /\ (delivered_ok k g g2 -> Inv k s').
+Proof. exact successful_reload. Qed.
+Print Assumptions C11_successful_reload_replaces_both.
+
+(* non-vacuity: a 3-row store, adapter failing after 2 rows, and a short grouping row *)
+Definition k_rbac : mkind := mkKind false true false false false AO true 0.
+Example C11_example :
+  let db := [(0%N, [1006; 1008; 1011]%N); (1%N, [1003; 1006]%N); (1%N, [1004]%N)] in
+  let s0 := fst (step_db k_rbac (init k_rbac [(0%N, [1006; 1008; 1011]%N); (1%N, [1003; 1006]%N)]) OLoad) in
+  let s1 := set_db s0 db in
+  is_err (snd (load_policy k_rbac s1 (Some 2%nat))) = true
+  /\ is_err (snd (load_policy k_rbac s1 None)) = true
+  /\ snd (enforce_ex_m k_rbac (fst (load_policy k_rbac s1 None)) [1003; 1008; 1011]%N) = Ok (true, Some 0%nat).
+Proof. vm_compute. repeat split; reflexivity. Qed.
